@@ -227,8 +227,8 @@ def getSkippedEpochData (st : St) (skipped current : Nat) (hdr : Blk) : St × Re
   else match dbMove st.dbEpoch skipped current with
     | some (db', d) => ({ st with dbEpoch := db' }, .db d)
     | none =>
-      let (m, r) := retrieveAndUpdate st st.nextEpoch skipped current hdr
-      ({ st with nextEpoch := m }, r)
+      ({ st with nextEpoch := (retrieveAndUpdate st st.nextEpoch skipped current hdr).1 },
+        (retrieveAndUpdate st st.nextEpoch skipped current hdr).2)
 
 /-- `GetSkippedConfigData(skipped, current, header)` -/
 def getSkippedConfig (st : St) (skipped current : Nat) (hdr : Blk) : St × Res :=
@@ -236,36 +236,40 @@ def getSkippedConfig (st : St) (skipped current : Nat) (hdr : Blk) : St × Res :
   else match dbMove st.dbConfig skipped current with
     | some (db', d) => ({ st with dbConfig := db' }, .db d)
     | none =>
-      let (m, r) := retrieveAndUpdate st st.nextConfig skipped current hdr
-      let st' := { st with nextConfig := m }
-      match r with
+      let st' := { st with nextConfig := (retrieveAndUpdate st st.nextConfig skipped current hdr).1 }
+      match (retrieveAndUpdate st st.nextConfig skipped current hdr).2 with
       | .errEpoch => (st', getConfigData st' hdr (skipped - 1))
       | .errHash => (st', getConfigData st' hdr (skipped - 1))
       | r => (st', r)
 
+/-- `updateSkippedEpochDataRaw`; `false` = an error was returned -/
+def updateSkippedEpoch (st : St) (skipped current : Nat) (hdr : Blk) : St × Bool :=
+  match dbMove st.dbEpoch skipped current with
+  | some p => ({ st with dbEpoch := p.1 }, true)
+  | none =>
+    ({ st with nextEpoch := (retrieveAndUpdate st st.nextEpoch skipped current hdr).1 },
+      match (retrieveAndUpdate st st.nextEpoch skipped current hdr).2 with
+      | .mem _ => true
+      | _ => false)
+
+/-- `updateSkippedConfigData` -/
+def updateSkippedConfig (st : St) (skipped current : Nat) (hdr : Blk) : St × Bool :=
+  match dbMove st.dbConfig skipped current with
+  | some p => ({ st with dbConfig := p.1 }, true)
+  | none =>
+    ({ st with nextConfig := (retrieveAndUpdate st st.nextConfig skipped current hdr).1 },
+      match (retrieveAndUpdate st st.nextConfig skipped current hdr).2 with
+      | .mem _ => true
+      | .errEpoch => true
+      | .errHash => true
+      | _ => false)
+
 /-- `UpdateSkippedEpochDefinitions(skipped, current, header)`; `false` = an error was returned -/
 def updateSkipped (st : St) (skipped current : Nat) (hdr : Blk) : St × Bool :=
   if skipped = 0 then (st, true)
-  else
-    -- updateSkippedEpochDataRaw
-    let (st1, ok1) : St × Bool :=
-      match dbMove st.dbEpoch skipped current with
-      | some (db', _) => ({ st with dbEpoch := db' }, true)
-      | none =>
-        let (m, r) := retrieveAndUpdate st st.nextEpoch skipped current hdr
-        ({ st with nextEpoch := m }, match r with | .mem _ => true | _ => false)
-    if !ok1 then (st1, false)
-    else
-      -- updateSkippedConfigData
-      match dbMove st1.dbConfig skipped current with
-      | some (db', _) => ({ st1 with dbConfig := db' }, true)
-      | none =>
-        let (m, r) := retrieveAndUpdate st1 st1.nextConfig skipped current hdr
-        ({ st1 with nextConfig := m }, match r with
-          | .mem _ => true
-          | .errEpoch => true
-          | .errHash => true
-          | _ => false)
+  else if (updateSkippedEpoch st skipped current hdr).2 then
+    updateSkippedConfig (updateSkippedEpoch st skipped current hdr).1 skipped current hdr
+  else ((updateSkippedEpoch st skipped current hdr).1, false)
 
 /-! ### GetEpochForBlock -/
 
